@@ -2,7 +2,7 @@
 From Coq Require Import List ZArith Bool QArith Qcanon.
 From GL Require Import Lib.Arr Lib.Keyed Lib.Blocks Model.Dom Model.Scalar Model.Reduce Model.Select
   Model.Cumulative Model.Rolling Model.Ema Spec.Defs Spec.Exec Spec.RowSpec
-  Proofs.ReduceWrap Proofs.RowGeneric Proofs.MaskFilter Proofs.SelectProofs Proofs.EmaMask.
+  Proofs.ReduceWrap Proofs.RowGeneric Proofs.MaskFilter Proofs.SelectProofs Proofs.EmaMask Proofs.EmaTimedMask.
 Import ListNotations.
 Open Scope Z_scope.
 
@@ -101,6 +101,22 @@ Theorem C05_ema_plain_refuted :
     <> ema_grouped (filter_by m gk) (filter_by m vals) alpha ng None.
 Proof. exact ema_plain_mask_is_not_filter. Qed.
 Print Assumptions C05_ema_plain_refuted.
+
+(* 6. Time-weighted grouped EMA: here a mask IS equivalent to filtering first, for any decay that is a
+      homomorphism from elapsed time to factors (the exponential 2^(-dt/halflife) is one; the instance
+      decay_exp below shows the hypotheses are satisfiable non-trivially): a masked row moves the group's
+      clock and decays the accumulators by decay(dt), exactly what the next row does over the whole gap
+      when the row is absent. *)
+Theorem C05_ema_timed_mask_is_filter decay gk vals times ng m :
+  decay 0 = 1%Qc -> (forall a b, decay (a + b) = (decay a * decay b)%Qc) ->
+  length gk = length m -> length vals = length m -> length times = length m ->
+  filter_by m (ema_grouped_timed decay gk vals times ng (Some m))
+  = ema_grouped_timed decay (filter_by m gk) (filter_by m vals) (filter_by m times) ng None.
+Proof. exact (fun H0 Ha => ema_timed_mask_is_filter decay H0 Ha gk vals times ng m). Qed.
+Print Assumptions C05_ema_timed_mask_is_filter.
+Theorem C05_decay_exp_is_a_decay : decay_exp 0 = 1%Qc /\ forall a b, decay_exp (a + b) = (decay_exp a * decay_exp b)%Qc.
+Proof. exact (conj decay_exp_zero decay_exp_add). Qed.
+Print Assumptions C05_decay_exp_is_a_decay.
 
 Example C05_example :
   let gk := [0; 1; 0; 1; 0] in let vals := map fl_of_Z [1; 2; 3; 4; 5] in let m := [true; false; true; true; false] in
